@@ -281,29 +281,36 @@ Definition build_elem (k : elkind) (b : builder) (props : list property) : res e
     Ok (EBox (mkBox layer bt xy (opt_bits ElemFlags b) (opt_z Plex b) props))
   end.
 
-(** parse_boundary, parse_path, parse_text_elem, parse_node, parse_box, parse_struct_ref, parse_array_ref *)
+(** parse_boundary, parse_path, parse_text_elem, parse_node, parse_box, parse_struct_ref, parse_array_ref.
+    One iteration of the loop is [parse_elem_body], with [rec] standing for the rest of the loop
+    (fuel [f']); [parse_elem] ties the knot. (Split in two so that unfolding [parse_elem] in proofs
+    does not duplicate the fixpoint in every branch of the compiled pattern matching; the function
+    is the same.) *)
+Definition parse_elem_body (rec : elkind -> pstate -> builder -> list property -> res (element * pstate))
+           (f' : nat) (k : elkind) (st : pstate) (b : builder) (props : list property)
+  : res (element * pstate) :=
+  let? (r, st1) := next st in
+  match r with
+  | (EndElement, _) => let? e := build_elem k b props in Ok (e, st1)
+  | (rt, pl) =>
+    if negb (accepts k rt) then Err EParse (* self.invalid(r) *)
+    else match r with
+         | (Strans, PBits d0 d1) =>
+           let? (s, st2) := parse_strans f' st1 d0 d1 in
+           rec k st2 ((Strans, VStrans s) :: b) props
+         | (PropAttr, PI16 (attr :: _)) =>
+           let? (p, st2) := parse_property st1 attr in
+           rec k st2 b (props ++ [p])
+         | _ =>
+           let? v := field_of k r in
+           rec k st1 ((rt, v) :: b) props
+         end
+  end.
 Fixpoint parse_elem (f : nat) (k : elkind) (st : pstate) (b : builder) (props : list property)
   : res (element * pstate) :=
   match f with
   | O => OutOfFuel
-  | S f' =>
-    let? (r, st1) := next st in
-    match r with
-    | (EndElement, _) => let? e := build_elem k b props in Ok (e, st1)
-    | (rt, pl) =>
-      if negb (accepts k rt) then Err EParse (* self.invalid(r) *)
-      else match r with
-           | (Strans, PBits d0 d1) =>
-             let? (s, st2) := parse_strans f' st1 d0 d1 in
-             parse_elem f' k st2 ((Strans, VStrans s) :: b) props
-           | (PropAttr, PI16 (attr :: _)) =>
-             let? (p, st2) := parse_property st1 attr in
-             parse_elem f' k st2 b (props ++ [p])
-           | _ =>
-             let? v := field_of k r in
-             parse_elem f' k st1 ((rt, v) :: b) props
-           end
-    end
+  | S f' => parse_elem_body (parse_elem f') f' k st b props
   end.
 
 Definition elkind_of (rt : rtype) : option elkind :=
